@@ -136,9 +136,54 @@ def tables():
             'matrix': MatrixGrader.default_functions}
 
 
-def run_impl(table, fname, args, formula=None):
+# ---- numpy floating-point error state (process-wide): snapshot, comparison after every implementation call, restore
+FP_BASELINE = {}
+FP_LEAKS = []          # (label, before, after) for every call after which the state differed; drained by the harness
+
+
+def fp_state():
+    import numpy as np
+    cb = np.geterrcall()
+    return dict(np.geterr()), getattr(cb, '__name__', repr(cb))
+
+
+def fp_capture_baseline():
+    """the state the library configures at import (expressions.py): taken once, at the start of a run"""
+    import numpy as np
+    import mitxgraders.helpers.calc.expressions      # noqa -- the import configures the state
+    FP_BASELINE['err'] = dict(np.geterr())
+    FP_BASELINE['call'] = np.geterrcall()
+    del FP_LEAKS[:]
+    return fp_state()
+
+
+def fp_restore():
+    import numpy as np
+    if FP_BASELINE:
+        np.seterr(**FP_BASELINE['err'])
+        np.seterrcall(FP_BASELINE['call'])
+
+
+def fp_check(label):
+    """after an implementation call: has the process-wide error state changed?  If so note it (the harness turns it into
+    a witness naming the call) and put the known-good state back, so that a leak cannot poison the rest of the run."""
+    import numpy as np
+    if not FP_BASELINE:
+        return None
+    now_err, now_call = dict(np.geterr()), np.geterrcall()
+    if now_err != FP_BASELINE['err'] or now_call is not FP_BASELINE['call']:
+        leak = (label, {'geterr': FP_BASELINE['err'], 'geterrcall': getattr(FP_BASELINE['call'], '__name__', None)},
+                {'geterr': now_err, 'geterrcall': getattr(now_call, '__name__', repr(now_call))})
+        FP_LEAKS.append(leak)
+        fp_restore()
+        return leak
+    return None
+
+
+def run_impl(table, fname, args, formula=None, functions=None, max_array_dim=None):
     """Evaluate f(args) through the real evaluator.  Returns a dict:
-    status 'ret' | 'exc', value, exc (class name), student_facing, msg, warnings (list of category:text)."""
+    status 'ret' | 'exc', value, exc (class name), student_facing, msg, warnings (list of category:text),
+    fp_changed (the numpy error state differed after the call; it has been restored)."""
     from mitxgraders.helpers.calc.expressions import evaluator
     from mitxgraders.helpers.calc.mathfuncs import DEFAULT_VARIABLES
     from mitxgraders.exceptions import StudentFacingError
@@ -149,15 +194,19 @@ def run_impl(table, fname, args, formula=None):
         names.append('a%d' % k)
     text = formula if formula is not None else '%s(%s)' % (fname, ','.join(names))
     obs = {'formula': text}
-    with warnings.catch_warnings(record=True) as wlist:
-        warnings.simplefilter('always')
-        try:
-            value = evaluator(text, variables=variables, functions=tables()[table], max_array_dim=None)[0]
-            obs.update(status='ret', value=value)
-        except Exception as e:     # noqa
-            obs.update(status='exc', exc=type(e).__name__, student_facing=isinstance(e, StudentFacingError), msg=str(e))
-    obs['warnings'] = ['%s:%s' % (w.category.__name__, w.message) for w in wlist
-                       if not issubclass(w.category, (DeprecationWarning, PendingDeprecationWarning))]
+    try:
+        with warnings.catch_warnings(record=True) as wlist:
+            warnings.simplefilter('always')
+            try:
+                value = evaluator(text, variables=variables, functions=functions if functions is not None else tables()[table],
+                                  max_array_dim=max_array_dim)[0]
+                obs.update(status='ret', value=value)
+            except Exception as e:     # noqa
+                obs.update(status='exc', exc=type(e).__name__, student_facing=isinstance(e, StudentFacingError), msg=str(e))
+        obs['warnings'] = ['%s:%s' % (w.category.__name__, w.message) for w in wlist
+                           if not issubclass(w.category, (DeprecationWarning, PendingDeprecationWarning))]
+    finally:
+        obs['fp_changed'] = fp_check('evaluator(%r) on the %s table with %r' % (text, table, args))
     return obs
 
 
@@ -340,6 +389,20 @@ def check_value(fname, z, cplx, w, mode):
     return 'no reference for %s' % fname
 
 
+def documented_arity(fname):
+    """('exactly', n) | ('at_least', n) -- docs/grading_math/functions_and_constants.md"""
+    if fname in ('min', 'max'):
+        return ('at_least', 2)
+    if fname in ('arctan2', 'kronecker', 'cross'):
+        return ('exactly', 2)
+    return ('exactly', 1)
+
+
+def wrong_count(fname, n):
+    kind, k = documented_arity(fname)
+    return n < k if kind == 'at_least' else n != k
+
+
 def scalar_domain(fname, table):
     return (fname in SCALAR1 and not (fname == 'abs' and table == 'matrix')) or fname in ('min', 'max', 'arctan2', 'kronecker')
 
@@ -360,6 +423,8 @@ def numberlike_item(a):
 def judge(case, obs):
     """case: {'table','fname','args'}; returns None or a violation text.  Demands exactly the property."""
     fname, args, table = case['fname'], case['args'], case['table']
+    if obs.get('fp_changed'):
+        return 'the call left the numpy floating-point error state changed: %r -> %r' % (obs['fp_changed'][1], obs['fp_changed'][2])
     if obs['warnings']:
         return 'warning emitted: %s' % obs['warnings'][0][:160]
     if obs['status'] == 'exc' and not obs['student_facing']:
@@ -390,15 +455,17 @@ def judge(case, obs):
             return 'in-domain call raised %s: %s' % (obs['exc'], obs['msg'][:120])
         return None
 
-    # ---- arity
-    if fname in ('min', 'max'):
-        if n < 2:
-            return must_raise('wrong number of arguments')
-    elif fname in ('arctan2', 'kronecker', 'cross'):
-        if n != 2:
-            return must_raise('wrong number of arguments')
-    elif n != 1:
-        return must_raise('wrong number of arguments')
+    # ---- arity: a count that differs from the documented one is reported as such (ArgumentError), whatever the
+    # surplus arguments are -- in particular it is never absorbed by a hidden parameter of the underlying callable
+    def must_arity():
+        if obs['status'] == 'ret':
+            return 'wrong number of arguments (%d): returned %r instead of a student-facing error' % (n, obs['value'])
+        if obs['exc'] != 'ArgumentError':
+            return ('wrong number of arguments (%d) reported as %s (%s) instead of the argument-count error'
+                    % (n, obs['exc'], obs['msg'][:100]))
+        return None
+    if wrong_count(fname, n):
+        return must_arity()
 
     # ---- per function
     if fname in SCALAR1 and not (fname == 'abs' and is_matrix_table):
